@@ -279,6 +279,35 @@ def p5(prog, rep):
         rep.check("prepare_proposal_tx_execution(" in a[0] and
                   "get_cached_block_deposits(self.state)" in a[1], "P5", rep.nth("prepare-operands"),
                   f"prepare derives commitments from {[x[:50] for x in a]}", g.where())
+    # the block that is built, stored and served after execution re-derives both roots from its
+    # own inputs (SequencerBlockBuilder::try_build) and must reproduce the proposal's
+    # commitments: it has to be fed the rollup data of *every* executed transaction, in order,
+    # and the same cached deposits - no selecting or reordering adapter in between
+    b = prog.main_body(A + "post_execute_transactions")
+    aggs = list(b.aggregates("adt", r"SequencerBlockBuilder$"))
+    rep.floor("P5", len(aggs), 1, "SequencerBlockBuilder construction in post_execute_transactions")
+    SELECTING = {"filter", "filter_map", "take", "skip", "take_while", "skip_while", "step_by",
+                 "rev", "dedup", "retain", "truncate", "sort", "sort_by", "sort_by_key", "chain",
+                 "zip", "flatten", "nth", "last", "first", "find", "find_map", "partition",
+                 "map_while", "scan", "peekable"}
+    for i, j, p_, rv, line in aggs:
+        f = dict(zip(rv[5], [b.root(o) for o in rv[4]]))
+        rd = f.get("rollup_data_bytes", "")
+        head = rd.split("closure:")[0]
+        fns = set(re.findall(r"(\w+)\(", head))
+        closures = [c for bb_ in prog.bodies_of(A + "post_execute_transactions") for c in bb_.calls
+                    if short_name(c.callee) == "rollup_data_bytes"]
+        ok = head.startswith("collect(") and "iter(executed_txs)" in head and \
+            not (fns & SELECTING) and "~mut" not in head and bool(closures)
+        rep.check(ok, "P5", "built-block:rollup-data-of-all-executed-txs",
+                  f"the sequencer block is built from `{rd[:110]}`: not the rollup data of every "
+                  "executed transaction in order (the roots it re-derives would differ from the "
+                  "proposal's commitments: every honest node rejects the block)",
+                  f"{b.file}:{line}")
+        rep.check(f.get("deposits") == "get_cached_block_deposits(self.state)", "P5",
+                  "built-block:deposits=cached-deposits",
+                  f"the sequencer block is built with deposits `{f.get('deposits', '')[:80]}`",
+                  f"{b.file}:{line}")
 
 
 # ----------------------------------------------------------------------------------------------
